@@ -190,3 +190,20 @@ Theorem C15_reorder_equiv :
   meq (exec q m) (exec p m).
 Proof. exact reorder_equiv. Qed.
 Print Assumptions C15_reorder_equiv.
+
+(* the same on the barrier-synchronised machine itself: DM core 1 and compute core 0 execute their
+   instruction streams of the unrolled code, synchronised by the cluster barriers only; EVERY maximal
+   execution terminates (no deadlock) with the buffers of the original sequential loop *)
+From Snax Require Import Model.MultiCoreStreams.
+Theorem C15_pipeline_machine :
+  forall p ds n m,
+  safe_pipe p ds = true ->
+  (forall b, In b ds -> In (Fixed b) (all_operands p)) ->
+  (forall k o, In o (nth k (p_stages p) []) -> s_core o = 0 \/ s_core o = 1) ->
+  (1 <= nstages p)%nat -> (nstages p - 1 <= n)%nat ->
+  forall cfg, steps (streams_of [0; 1] (pipe_events p ds (Z.of_nat n) 1), m) cfg ->
+    (all_finished (fst cfg) = true /\
+     forall x, ~ duprel ds x -> snd cfg x = exec (concat (seq_events p 0 (Z.of_nat n) 1)) m x) \/
+    (exists cfg', step cfg cfg').
+Proof. exact pipeline_machine. Qed.
+Print Assumptions C15_pipeline_machine.
